@@ -131,6 +131,7 @@ void node_move(const void* addr, uint32_t vid);               // value vid now l
 void node_del(const void* addr, uint32_t vid, bool holds_value);
 void node_use(uint32_t vid, bool moved_from);                 // value handed to a functor as argument
 void node_assign_over(const void* addr, uint32_t old_vid, bool held_value);
+void trivial_copy();                                          // a copy of the trivially destructible value type was made
 void node_lvalue_arg(uint32_t vid);                           // a functor received the value as an lvalue (cannot be moved from by a by-value parameter)
 
 // allocator control
